@@ -12,8 +12,9 @@ ASSUMPTIONS = [
     'C05: environment of harness/warcenv.py (fake FS with gzip modelled as framing - one member = header + payload + trailer, pure-Python '
     'temp files, fixed clock, counter uuids); SHA-1 is uninterpreted: the claim is "the hasher was fed exactly this byte range and its '
     'digest is what the field carries", not the arithmetic of SHA-1',
-    'C05: the log record (root-logger handler writing a real gzip temp file) and move_to are outside the claim; FTP sessions are '
-    'exercised by feeding the recorder-session callbacks directly',
+    'C05: the log record is exercised with the temporary gzip log file modelled in the fake file system (text written through the '
+    'handler stream; the logging module itself stays disabled); move_to is outside the claim; FTP sessions are exercised by feeding '
+    'the recorder-session callbacks directly; fileno()/os.fstat of fake files report the raw size of the underlying file',
     'C05: the files are re-read by an independent strict parser (harness/warcenv.read_records)',
 ]
 
@@ -120,18 +121,18 @@ class _SeenTable:
         return '<urn:uuid:previous>' if self.seen else None
 
 
-def _file_is_record_sequence(body, compress, digests, appending, rollover, extra_field, nsessions, seen, cut):
+def _file_is_record_sequence(body, compress, digests, appending, rollover, extra_field, nsessions, seen, cut, log=False):
     """Whole files under symbolic recorder configurations."""
     body = fixlen(body, 2)
     fs = fakefs.FS()
     params = dict(compress=compress, digests=digests, appending=appending, max_size=(1 if rollover else None),
                   extra_fields=_EXTRA if extra_field else None,
-                  url_table=_SeenTable(True) if seen else None)
+                  url_table=_SeenTable(True) if seen else None, log=log)
     pre_ids = []
     if appending:
         # an earlier run left a (valid) archive behind
         with nosym():
-            old = warcenv.new_recorder(fs, **dict(params, appending=False, url_table=None))
+            old = warcenv.new_recorder(fs, **dict(params, appending=False, url_table=None, log=False))
             old.close()
             for name in sorted(fs.files):
                 for r in warcenv.read_records(fs.files[name], compress) or []:
@@ -140,9 +141,15 @@ def _file_is_record_sequence(body, compress, digests, appending, rollover, extra
     head = b'HTTP/1.1 200 OK\r\nContent-Type: text/plain\r\nContent-Length: ' + str(len(body)).encode() + b'\r\n\r\n'
     for i in range(nsessions):
         warcenv.http_exchange(rec, 'http://h.example/%d' % i, head + body, [cut] if cut else [])
+    log_text = b''
+    if log:
+        # what the root-logger handler would write while crawling (logging itself is disabled in harnesses)
+        rec._log_handler.stream.write('2020-01-02 03:04:05 - wpull - INFO - fetched something\n')
+        log_text = b'2020-01-02 03:04:05 - wpull - INFO - fetched something\n'
     rec.close()
     ids = []
     total = 0
+    saw_log = False
     for name in sorted(fs.files):
         if name.endswith('-wpullinc'):
             return False
@@ -164,6 +171,10 @@ def _file_is_record_sequence(body, compress, digests, appending, rollover, extra
                     return False
             if warcenv.field(r, 'WARC-Warcinfo-ID') != info_id:
                 return False                        # every record points at the warcinfo record of ITS file / run
+            if t == 'resource' and warcenv.field(r, 'WARC-Target-URI') == 'urn:X-wpull:log':
+                saw_log = True
+                if r['block'] != log_text:
+                    return False                    # the log record holds the (uncompressed) log
             if t == 'revisit':
                 hit('revisit')
                 if r['block'] != head:
@@ -181,6 +192,12 @@ def _file_is_record_sequence(body, compress, digests, appending, rollover, extra
     if len(set(ids)) != len(ids):
         return False                                # record ids unique
     hit('rollover' if rollover else 'single-file')
+    if log:
+        hit('log-record')
+        if not saw_log:
+            return False
+        if any(n.startswith('tmp-wpull-warc-') for n in fs.files):
+            return False                            # temporary log file left behind
     return total >= 1 + 2 * nsessions
 
 
@@ -244,18 +261,20 @@ HARNESSES = [
       doc='for every header formatting of the family the payload digest of the response record was computed over exactly the bytes that '
           'follow the HTTP header block (status line .. blank line) inside the block'),
     H('file_is_record_sequence', '_file_is_record_sequence',
-      'body: bytes, compress: bool, digests: bool, appending: bool, rollover: bool, extra_field: bool, nsessions: int, seen: bool, cut: int',
+      'body: bytes, compress: bool, digests: bool, appending: bool, rollover: bool, extra_field: bool, nsessions: int, seen: bool, cut: int, log: bool',
       pre=['len(body) <= 1 and 1 <= nsessions <= 2 and 0 <= cut <= 1'],
       parts={'quick': [{'tag': t, 'fix': fx} for t, fx in (
-          ('plain', _fx(compress=False, digests=True, appending=False, rollover=False, extra_field=False, nsessions=1, seen=False)),
-          ('gz_roll', _fx(compress=True, digests=True, appending=False, rollover=True, extra_field=True, nsessions=2, seen=False)),
-          ('append', _fx(compress=False, digests=False, appending=True, rollover=False, extra_field=False, nsessions=1, seen=False)),
-          ('append_gz_roll', _fx(compress=True, digests=True, appending=True, rollover=True, extra_field=False, nsessions=1, seen=False)),
-          ('revisit', _fx(compress=False, digests=True, appending=False, rollover=False, extra_field=False, nsessions=1, seen=True)))],
-             'thorough': [{'tag': 'z%d_d%d_a%d_r%d_s%d' % (z, d, a, r, s), 'fix': _fx(compress=bool(z), digests=bool(d), appending=bool(a), rollover=bool(r), seen=bool(s))}
+          ('plain', _fx(compress=False, digests=True, appending=False, rollover=False, extra_field=False, nsessions=1, seen=False, log=False)),
+          ('gz_roll', _fx(compress=True, digests=True, appending=False, rollover=True, extra_field=True, nsessions=2, seen=False, log=False)),
+          ('append', _fx(compress=False, digests=False, appending=True, rollover=False, extra_field=False, nsessions=1, seen=False, log=False)),
+          ('append_gz_roll', _fx(compress=True, digests=True, appending=True, rollover=True, extra_field=False, nsessions=1, seen=False, log=False)),
+          ('revisit', _fx(compress=False, digests=True, appending=False, rollover=False, extra_field=False, nsessions=1, seen=True, log=False)),
+          ('log_nodigest', _fx(compress=False, digests=False, appending=False, rollover=False, extra_field=False, nsessions=1, seen=False, log=True)),
+          ('log_gz_roll', _fx(compress=True, digests=True, appending=False, rollover=True, extra_field=False, nsessions=1, seen=False, log=True)))],
+             'thorough': [{'tag': 'z%d_d%d_a%d_r%d_s%d' % (z, d, a, r, s), 'fix': _fx(compress=bool(z), digests=bool(d), appending=bool(a), rollover=bool(r), seen=bool(s), log=bool(s == 0 and a == 0))}
                           for z in (0, 1) for d in (0, 1) for a in (0, 1) for r in (0, 1) for s in (0, 1)]},
-      timeout={'quick': 280, 'thorough': 1800}, samples=[(b'a', False, True, False, False, False, 1, False, 0), (b'', True, True, True, True, True, 2, False, 0)],
-      need=['single-file', 'rollover', 'revisit'],
+      timeout={'quick': 280, 'thorough': 1800}, samples=[(b'a', False, True, False, False, False, 1, False, 0, False), (b'', True, True, True, True, True, 2, False, 0, False), (b'a', False, False, False, False, False, 1, False, 0, True)],
+      need=['single-file', 'rollover', 'revisit', 'log-record'],
       funcs=['wpull/warc/recorder.py:WARCRecorder.__init__', 'wpull/warc/recorder.py:WARCRecorder._start_new_warc_file',
              'wpull/warc/recorder.py:WARCRecorder._populate_warcinfo', 'wpull/warc/recorder.py:WARCRecorder.write_record',
              'wpull/warc/recorder.py:WARCRecorder.flush_session', 'wpull/warc/recorder.py:WARCRecorder.close',
